@@ -269,6 +269,10 @@ static bool build_instance(const Row& row, int mode, const std::vector<char>& ki
   return true;
 }
 
+static const int kAddrFirst = 23, kAddrCount = 162;
+static const int64_t kAddrValues[9] = {0x1000, 0x7FFFFFFF, 0x80000000ll, 0xFFFFF000ll, 0xFFFFFFFFll, 0x100000000ll, 0x1122334455667788ll,
+                                       int64_t(0x8000000000000000ull), -1};
+
 // instance n of a variant (see header comment).  Returns false when the row has no such instance.
 static bool instance(const Row& row, int mode, const std::vector<char>& kinds, int n, Inst& ob) {
   const Form& f = row.f;
@@ -319,6 +323,24 @@ static bool instance(const Row& row, int mode, const std::vector<char>& kinds, i
     }
     default:
       if (n >= 12 && n <= 15) return build_instance(row, mode, kinds, n - 10, n == 13 && anyImp, ob);     // id sets 2..5 (r8.., xmm16.. for EVEX rows)
+      if (n >= kAddrFirst && n < kAddrFirst + kAddrCount) {
+        // absolute address as a dimension: instance = kAddrFirst + ((shape * 2 + seg) * 3 + addrtype) * 9 + value
+        //   value 0..8 = kAddrValues; addrtype 0 default 1 abs 2 rel; seg 0 none 1 fs:; shape 0 [abs] 1 [abs + native index*2] 2 [abs + 32-bit index*2] (64-bit mode)
+        int memJ = -1;
+        for (size_t j = 0; j < f.ops.size(); j++)
+          if (kinds[j] == 'm' && f.ops[j].memreg.empty() && f.ops[j].vsib.empty() && (f.ops[j].fld == "rm" || f.ops[j].fld == "moff")) memJ = int(j);
+        if (memJ < 0) return false;
+        int c = n - kAddrFirst, vi = c % 9, at = (c / 9) % 3, sg = (c / 27) % 2, shape = c / 54;
+        int64_t v = kAddrValues[vi];
+        if (mode == 32 && (v > 0xFFFFFFFFll || v < -0x80000000ll)) return false;
+        if (shape == 2 && mode != 64) return false;
+        if (shape != 0 && f.ops[memJ].fld == "moff") return false;
+        build_instance(row, mode, kinds, 0, false, ob);
+        Opd& o = ob.ops[memJ];
+        o.bt = ""; o.b = 0; o.it = ""; o.i = 0; o.sh = 0; o.d = v; o.at = at; o.sg = sg ? 5 : 0;
+        if (shape) { o.it = shape == 2 ? "gpd" : (mode == 64 ? "gpq" : "gpd"); o.i = 1; o.sh = 1; }
+        return true;
+      }
       return false;
   }
 }
@@ -393,6 +415,15 @@ static void sweep_row(const Row& row, bool thorough, Sink& out) {
       size_t LN = thorough ? sizeof(kThoroughInstances) / sizeof(int) : sizeof(kQuickInstances) / sizeof(int);
       for (size_t q = 0; q < LN; q++)
         if (instance(row, mode, kinds, L[q], ob)) out.put(row, ob, "base", "", var, L[q]);
+      {  // absolute addresses: every combination for the moffs rows and for mov / lea / add, a rotating sample (quick 6, thorough 24) for the other rows
+        bool moff = false; for (const FOp& fo : f.ops) if (fo.fld == "moff") moff = true;
+        bool all = moff || f.name == "mov" || f.name == "lea" || f.name == "add";
+        int take = all ? kAddrCount : (thorough ? 24 : 6);
+        for (int k = 0; k < take; k++) {
+          int n = kAddrFirst + (all ? k : int((size_t(f.id) * 31 + size_t(cix) * 7 + size_t(k) * 29 + (mode == 64 ? 0 : 13)) % kAddrCount));
+          if (instance(row, mode, kinds, n, ob)) out.put(row, ob, "base", "", var, n);
+        }
+      }
       // ---- near misses of instance 0 ----
       Inst b0;
       if (!instance(row, mode, kinds, 0, b0)) continue;
